@@ -1,0 +1,63 @@
+//go:build verif
+// +build verif
+
+package tars
+
+import (
+	"reflect"
+	"sync/atomic"
+)
+
+// Test-only exports for the verification harness (checks C08/C09); compiled only with the "verif" build tag.
+
+// VerifSetMsgID places the process-wide request id counter (e.g. just below the wrap point).
+func VerifSetMsgID(v int32) { atomic.StoreInt32(&msgID, v) }
+
+// VerifMsgID returns the current value of the request id counter.
+func VerifMsgID() int32 { return atomic.LoadInt32(&msgID) }
+
+// VerifGenRequestID draws one request id exactly as TarsInvoke does.
+func VerifGenRequestID(s *ServantProxy) int32 { return s.genRequestID() }
+
+// VerifQueueLen returns ServantProxy.queueLen (calls currently inside doInvoke).
+func VerifQueueLen(s *ServantProxy) int32 { return atomic.LoadInt32(&s.queueLen) }
+
+// VerifMgrInvokeNum returns endpointManager.invokeNum (calls between preInvoke and postInvoke).
+func VerifMgrInvokeNum(s *ServantProxy) int32 {
+	if e, ok := s.manager.(*endpointManager); ok {
+		return atomic.LoadInt32(&e.invokeNum)
+	}
+	return -1
+}
+
+// VerifAdapters returns the adapter proxies the servant's endpoint manager currently knows.
+func VerifAdapters(s *ServantProxy) []*AdapterProxy {
+	var out []*AdapterProxy
+	if e, ok := s.manager.(*endpointManager); ok {
+		e.epList.Range(func(_, v interface{}) bool {
+			out = append(out, v.(*AdapterProxy))
+			return true
+		})
+	}
+	return out
+}
+
+// VerifPendingIDs returns the request ids present in the adapter's pending-reply table.
+func VerifPendingIDs(c *AdapterProxy) []int32 {
+	out := []int32{}
+	c.resp.Range(func(k, _ interface{}) bool {
+		out = append(out, k.(int32))
+		return true
+	})
+	return out
+}
+
+// VerifTransportInvokeNum returns the in-flight counter of the adapter's transport connection
+// (transport.connection.invokeNum; read through reflection because the field is unexported).
+func VerifTransportInvokeNum(c *AdapterProxy) int32 {
+	v := reflect.ValueOf(c.tarsClient).Elem().FieldByName("conn")
+	if !v.IsValid() || v.IsNil() {
+		return 0
+	}
+	return int32(v.Elem().FieldByName("invokeNum").Int())
+}
